@@ -39,7 +39,7 @@ claimed = {
    technique='deterministic simulation: simulated interactive user on the debugger command stream + statement-level ground truth + stop-rule reference model'),
  'C26': dict(level='exploration', design='3.10',
    text='Seeded streams assembled from statement templates whose token structure and statement boundaries are known by construction, delivered through a simulated byte source (bufio over 1..7-byte fragments with zero-byte reads, a one-line-per-call line source, whole buffer in one read) with injected faults (EOF at an arbitrary byte biased into strings/comments/open brackets, non-EOF read error at an arbitrary byte followed or not by more data, missing final newline, CRLF, #! first line). Oracles: chunks concatenate to exactly the bytes delivered (with #! -> //), every chunk ends at a constructed statement boundary (never inside a token or open bracket, never cutting a continued statement), every chunk parses on its own, the chunking is identical under every delivery schedule, and the EOF error kind tells whether brackets were open.',
-   note='Templates are a fixed alphabet (about 95 statement shapes, including lines longer than the buffer of bufio, the character after a division operator, comments ending in **/, tabs in literals, trailing selector dots, line-ending keywords glued to brackets); standard-library files are not used. A line source returning several lines per call is outside the Readline contract both real implementations follow and is not simulated. After an injected non-EOF error nothing is required of the rest of the stream.',
+   note='Templates are a fixed alphabet (about 90 statement shapes, including lines longer than the buffer of bufio, the character after a division operator, comments ending in **/, tabs in literals, trailing selector dots, line-ending keywords glued to brackets); standard-library files are not used. A line source returning several lines per call is outside the Readline contract both real implementations follow and is not simulated. After an injected non-EOF error nothing is required of the rest of the stream.',
    technique='deterministic simulation: simulated byte/line source with seeded fragmentation and injected EOF/read errors + boundaries known by construction'),
  'C27': dict(level='exploration', design='3.11',
    text='Partial: decides clause 1 (positions across chunks). Seeded multi-chunk sources (declarations with continuation lines, multi-line raw strings, groups, separated by seeded runs of blank lines and comments) optionally preceded by a package clause and by chunks that fail (compile error, syntax error, run-time panic), carry one marker at a constructed line:column - undefined identifier (compile error), invalid token (parse error), or a "break" statement reached under the real debugger (stop position); one run in four of the EvalReader / EvalFile entries first abandons another source midway on the same interpreter. They are evaluated through EvalReader over a fragmenting byte source, EvalFile on a real file, and the REPL loop over a line source; the file:line:col in the captured report must equal the constructed position under every delivery and any number of preceding chunks.',
